@@ -197,6 +197,33 @@ def sub_euroc_ok(case):
     return "euroc_ok/" + case["via"]
 
 
+def sub_rewrite_history(case):
+    """the same path read several times while its content changes (with / without BOM, other numbers, rewritten by evo)"""
+    d = tempfile.mkdtemp(prefix="c07h_", dir=os.getcwd())
+    p = os.path.join(d, "traj.txt")
+    arg = p if case["via"] != "pathlib" else pathlib.Path(p)
+    for k, step in enumerate(case["steps"]):
+        n, P, Q, T = _numbers(step)
+        if step["writer"] == "evo":
+            obj = PoseTrajectory3D(positions_xyz=P.copy(), orientations_quat_wxyz=Q.copy(), timestamps=T.copy())
+            file_interface.write_tum_trajectory_file(arg, obj)
+            E_t, E_p, E_q = T, P, Q
+        else:
+            rows = [tokens_of([T[i], P[i][0], P[i][1], P[i][2], Q[i][1], Q[i][2], Q[i][3], Q[i][0]], step, i) for i in range(n)]
+            text = render(rows, " ", step)
+            with open(p, "wb") as f:
+                f.write((b"\xef\xbb\xbf" if step["bom"] else b"") + text.encode("utf-8"))
+            E = _expect_rows(rows)
+            E_t, E_p, E_q = E[:, 0], E[:, 1:4], np.column_stack([E[:, 7], E[:, 4], E[:, 5], E[:, 6]])
+        try:
+            obj = file_interface.read_tum_trajectory_file(arg)
+        except FileInterfaceException as e:
+            raise Mismatch("read nr. %d of the same path: a well-formed file (BOM=%s, written by %s) was rejected: %s" % (k + 1, step["bom"], step["writer"], e),
+                           observed="history_rejected", fmt="TUM")
+        _check_traj(obj, E_t, E_p, E_q, "TUM (read nr. %d of the same path)" % (k + 1))
+    return "rewrite/" + "".join("B" if s_["bom"] and s_["writer"] != "evo" else ("e" if s_["writer"] == "evo" else "p") for s_ in case["steps"])
+
+
 # ---- files written by evo, read by the reference parser ------------------------------------------
 
 def sub_writers(case):
@@ -389,6 +416,12 @@ def sub_transform_bad(case):
     elif kind == "bottom":
         B = M.copy()
         B[3, case["k"] % 4] += 0.5
+    elif kind in ("json_scale_zero", "json_scale_negative"):
+        q = gen.rot_quat(case["rot"])
+        js = {"x": 0.5, "y": 1.0, "z": 2.0, "qx": float(q[1]), "qy": float(q[2]), "qz": float(q[3]), "qw": float(q[0]),
+              "scale": [0, 0.0, -0.0][case["k"] % 3] if kind == "json_scale_zero" else -abs(s)}
+        how = "json"
+        B = None
     elif kind == "json_key":
         q = gen.rot_quat(case["rot"])
         js = {"x": 0.0, "y": 1.0, "z": 2.0, "qx": float(q[1]), "qy": float(q[2]), "qz": float(q[3]), "qw": float(q[0])}
@@ -432,7 +465,8 @@ st_tf = st.fixed_dictionaries({
     "sim3": st.booleans(), "explicit_scale": st.booleans(), "how": st.sampled_from(["npy", "txt", "json"]),
     "spell": st.lists(st.sampled_from(["repr", "e18", "g17", "plus"]), min_size=1, max_size=4), "crlf": st.booleans(),
     "via": st.sampled_from(["str", "pathlib"]), "k": st.integers(0, 20),
-    "bad": st.sampled_from(["shape34", "shape43", "shape55", "flat16", "reflection", "sheared", "rowscaled", "bottom", "json_key"])})
+    "bad": st.sampled_from(["shape34", "shape43", "shape55", "flat16", "reflection", "sheared", "rowscaled", "bottom", "json_key", "json_scale_zero",
+                            "json_scale_negative"])})
 
 
 def _nt_ok(c):
@@ -448,6 +482,9 @@ SUBS = [
     Sub("kitti_ok", sub_kitti_ok, st_ok, 500, 20000, nontrivial=_nt_ok),
     Sub("euroc_ok", sub_euroc_ok, st_ok, 500, 20000, nontrivial=_nt_ok),
     Sub("writers", sub_writers, st_ok, 400, 15000, nontrivial=lambda c: True),
+    Sub("rewrite_history", sub_rewrite_history, st.fixed_dictionaries({
+        "steps": st.lists(st.fixed_dictionaries(dict(_common, writer=st.sampled_from(["plain", "plain", "evo"]))), min_size=2, max_size=4),
+        "via": st.sampled_from(["str", "pathlib"])}), 250, 10000, nontrivial=lambda c: True),
     Sub("tum_bad", sub_tum_bad, st_bad, 900, 40000, nontrivial=_nt_bad),
     Sub("kitti_bad", sub_kitti_bad, st_bad, 500, 20000, nontrivial=_nt_bad),
     Sub("euroc_bad", sub_euroc_bad, st_bad, 500, 20000, nontrivial=_nt_bad),
